@@ -314,4 +314,37 @@ def run(ctx):
     # S5: the barycentric map differences pair like components of the triangle corners
     from .wrap_common import check_component_pairing
     check_component_pairing(facts, run, "C15.S5", ["a5::core::coordinate_transforms::face_to_barycentric"])
-    run.floor("C15", "rule instances", len(run.instances), 18)
+    # S6: the reflection test looks at the azimuth reduced to the sector bisector: whatever the input, the angle handed to
+    # the planar conversion lies within half a sector (|beta| <= PI/5).  Decided by interval analysis of the float code.
+    import math as _m
+    from ..ranges import Engine
+    from ..avals import sget, show as _show
+    TOFACE = "a5::core::coordinate_transforms::to_face"
+    sites6 = []
+    eng6 = None
+    for p_ in sorted(facts.fns):
+        if not p_.startswith("a5::projections::dodecahedron::") or facts.fns[p_]["kind"] not in ("Fn", "AssocFn"):
+            continue
+        fx = fn_terms(facts, p_)
+        tf = [c for c in fx.calls() if c.callee == TOFACE and len(c.args) == 1]
+        if not tf:
+            continue
+        if eng6 is None:
+            eng6 = Engine(facts)
+        a6 = eng6.default_args(p_)
+        eng6.summary(p_, a6)
+        c6 = eng6.ctx(p_, a6)
+        for c in tf:
+            av6 = c6.av(c.args[0], c.block)
+            while av6[0] == "r":
+                av6 = av6[1]
+            g6 = sget(av6, "gamma") if av6[0] == "s" else None
+            g6 = sget(g6, "0") if g6 is not None and g6[0] == "s" else g6
+            half = _m.pi / 5
+            ok6 = g6 is not None and g6[0] == "f" and -half * (1 + 1e-12) <= g6[1] and g6[2] <= half * (1 + 1e-12)
+            sites6.append(c)
+            run.inst("C15.S6", "reflect-azimuth-within-half-sector:" + p_.split("::")[-1], ok6,
+                     "the azimuth whose planar x is compared with the edge distance ranges over %s for arbitrary input (must stay within +-PI/5 = +-%.6f: the distance to the nearest edge is rho*cos(beta) only for the sector-reduced angle)" % (_show(g6) if g6 is not None else "?", half),
+                     where(c.span))
+    run.floor("C15.S6", "to_face call sites in the dodecahedron projection", len(sites6), 1)
+    run.floor("C15", "rule instances", len(run.instances), 19)
